@@ -41,7 +41,7 @@ def oracle(prog, obs, impl):
             if o['ok']:
                 after = o['out'][0][1]
                 got = conc_value(subs, after, op['solute'], target[1], target[2])
-                if got is None or abs(got - tv) > abs(tv) * F(1, 10**6) * k + F(2, 10**10):
+                if got is None or abs(got - tv) > abs(tv) * F(1, 10**6) * k + F(1, 10**15):
                     fails.append((i, f"dilute to {dsl.conc_str(c)}: the result has {float(got) if got is not None else None!r}, target {float(tv)!r} ({target[1]}/{target[2]})"))
                 for s in set(before['cont']) | set(after['cont']):
                     x, y = before['cont'].get(s, F(0)), after['cont'].get(s, F(0))
@@ -89,6 +89,18 @@ def make_cases(chk):
             g.new_container(nsub=rng.choice([2, 2, 3, 4]), max_ml=rng.choice([None, None, 60, 500]))
         for _ in range(rng.randint(0, 3)):
             g.transfer_cc()
+        if i % 4 == 3:
+            # trace solutes (pmol .. nmol) in an ordinary volume: nM-scale targets.  Made AFTER the transfers: the model does not round,
+            # and a 1e-10 umol rounding of a 1e-5 umol solute is amplified by the dilution it determines (correspondence only; the oracle is exact)
+            liq = g.sub(kind=('Liquid',))
+            sol = g.sub(kind=('Solid', 'Liquid'), notin=(liq['id'],))
+            if liq and sol:
+                init = [(liq['id'], gen.pick_qty(rng, rng.uniform(0.005, 0.02), 'L', sig=2)),
+                        (sol['id'], {'v': gen.dec(rng.choice([0.0014, 0.0126, 0.34, 7.5, 60]) * rng.uniform(0.5, 2), 3), 'p': 'n', 'b': 'mol'})]
+                op = {'op': 'newc', 'out': g.fresh(), 'name': g.name(), 'init': init}
+                if g.emit(op, 'newc:trace')['ok']:
+                    g.containers.append(op['out'])
+                    g.containers = [op['out']] * 3 + g.containers     # dilute it preferentially
         for _ in range(rng.randint(3, 7)):
             if rng.random() < 0.65:
                 add_dilute(g, rng)
